@@ -20,6 +20,7 @@ func init() {
 			"C04.3 the fingerprint's five fields are each written from the corresponding component (source IP, source port, destination IP, destination port, protocol) and netAddrIPAndPort depends on IP and Port; " +
 			"C04.4 (=C02.4) peer traffic is written only to the owner's a.fiveTuple.SrcAddr over a.TurnSocket; " +
 			"C04.5 the insert into Manager.allocations is dominated by GetAllocation(fiveTuple)==nil, and the Allocate handler calls CreateAllocation only when GetAllocation(request tuple)==nil; " +
+			"C04.7 (=C16.2) a ConnectionBind naming another user's connection id has no effect on that connection: the single-use flag is consumed only after the user test; " +
 			"C04.6 package server obtains *Allocation values only from the keyed lookups and CreateAllocation.",
 		NotCovered: "interleavings (the check-then-insert window between GetAllocation and the insert); cross-talk through operator callbacks.",
 		Run:        runC04,
@@ -33,6 +34,7 @@ func runC04(c *Ctx) {
 	ruleClientSocketWritesDstOnly(c, "C04.4")
 	ruleUniqueTuple(c, "C04.5")
 	ruleAllocSources(c, "C04.6")
+	ruleSingleUseOwner(c, "C04.7")
 }
 
 func ruleAllocTableKeys(c *Ctx, rule string) {
